@@ -4,7 +4,7 @@
    repaired by 9676b42 and c59c73f).  `now` is the value of _mi_clock_now(); cfg are the option values. *)
 From Coq Require Import NArith ZArith List Bool.
 From MiV Require Import Gen.Consts Gen.OsConsts Model.Arith Model.Os Model.Mask Model.MaskWords Model.Purge
-  Proofs.OsProofs Proofs.MaskProofs Proofs.MaskWordsProofs Proofs.PurgeProofs.
+  Proofs.OsProofs Proofs.MaskProofs Proofs.MaskWordsProofs Proofs.PurgeProofs Proofs.PurgePasses Proofs.ArenaCalls.
 Import ListNotations.
 Local Open Scope N_scope.
 
@@ -150,6 +150,22 @@ Proof.
 Qed.
 Print Assumptions C18_arena_try_purge.
 
+(* ... and the system calls of that visit (purge_delay >= 0, purge_decommits): every scheduled block that is not in use lies in
+   a block range [i, i+c) that the visit hands to madvise(start + i * BLOCK, c * BLOCK, MADV_DONTNEED).  arena_geom: the
+   arena starts page-aligned and does not wrap around; with block_count <= field_count * 64 these are the facts
+   mi_manage_os_memory_ex2 establishes for every arena (start aligned to MI_SEGMENT_ALIGN, field_count = divide_up(block_count, 64));
+   without them the statement is false in the model (Proofs/ArenaCalls.v, arena_try_purge_calls_any_arena_refuted: for an
+   unaligned start _mi_os_purge rounds the range inwards) *)
+Theorem C18_arena_try_purge_calls : forall cfg oracle, (0 <= purge_delay cfg)%Z -> purge_decommits cfg = true ->
+  forall o a now force,
+  a_pinned a = false -> arena_geom a -> a_block_count a <= a_field_count a * 64 ->
+  force = true \/ (a_expire a <> 0%Z /\ (a_expire a <= now)%Z) ->
+  forall b, b < a_block_count a -> N.testbit (a_purge a) b = true -> N.testbit (a_inuse a) b = false ->
+  exists i c, i <= b /\ b < i + c /\
+    In (KMadvise, a_start a + i * BLOCK, c * BLOCK, MADV_DONTNEED_) (calls (fst (fst (arena_try_purge cfg oracle o a now force)))).
+Proof. exact arena_try_purge_calls. Qed.
+Print Assumptions C18_arena_try_purge_calls.
+
 (* a NON-forced pass once the global expiry and the arena's expiry have passed: the first arena of the list that is
    not idle is purged (exactly its scheduled blocks that are not in use) *)
 Theorem C18_arena_purge_after_delay : forall cfg oracle o g pre a post now visit_all,
@@ -191,6 +207,20 @@ Theorem C18_expiry_fields_consistent : forall cfg oracle h st,
 Proof. exact expiry_fields_consistent. Qed.
 Print Assumptions C18_expiry_fields_consistent.
 
+(* repeated passes: from a state with consistent expiry fields, non-forced collects one arena purge delay apart, the first
+   one not before any pending expiry, leave no arena that can be purged with a pending expiry: k = 1 + the number of such
+   arenas passes suffice although every pass stops after max_purge_count = 2 purging arenas (the pass re-arms the global
+   expiry to now + delay, the time of the next pass).  The clock value t0 is not negative: _mi_clock_now() is the
+   millisecond count of a monotonic clock; for a negative clock the statement is false in the model (Proofs/PurgePasses.v,
+   arena_eventually_purged_any_clock_refuted: a pass at now = -delay re-arms the global expiry to 0 = "not armed") *)
+Theorem C18_arena_eventually_purged : forall cfg oracle st,
+  (0 < arena_purge_delay cfg)%Z -> expiry_consistent st ->
+  exists k, forall t0, (0 <= t0)%Z -> (forall a, In a (p_arenas st) -> (a_expire a <= t0)%Z) -> (p_g st <= t0)%Z ->
+    let h := map (fun i => (PCollect false, (t0 + Z.of_nat i * arena_purge_delay cfg)%Z)) (seq 0 k) in
+    forall a', In a' (p_arenas (prun cfg oracle st h)) -> a_pinned a' = false -> a_expire a' = 0%Z.
+Proof. exact arena_eventually_purged. Qed.
+Print Assumptions C18_arena_eventually_purged.
+
 (* ---------------------------------------------------------------- non-vacuity / regression scenarios *)
 (* the two histories that defeated the code before repair c59c73f (two arenas; one arena with a forced collect):
    after the pass at t0+120ms the global expiry is re-armed (1000220) while the arena expiry 1000150 is pending, and the
@@ -209,6 +239,15 @@ Example C18_ex_single_arena :
   (p_g st = 0%Z /\ map a_expire (p_arenas st) = [0%Z] /\ map a_purge (p_arenas st) = [0] /\
    calls (p_os st) = [(KMadvise, 2 ^ 40, BLOCK, MADV_DONTNEED_); (KMadvise, 2 ^ 40 + BLOCK, BLOCK, MADV_DONTNEED_)]).
 Proof. exact wit1_result. Qed.
+
+(* the hypotheses of C18_arena_try_purge_calls hold for the arena of the single-arena scenario after its frees *)
+Example C18_ex_arena_calls_hyps :
+  let a := {| a_start := 2 ^ 40; a_block_count := 32; a_field_count := 1; a_inuse := N.ones 64 - N.ones 32; a_committed := N.ones 64;
+              a_purge := 3; a_expire := 1000150%Z; a_pinned := false |} in
+  arena_geom a /\ a_block_count a <= a_field_count a * 64 /\ (0 <= purge_delay default_cfg)%Z /\ purge_decommits default_cfg = true /\
+  N.testbit (a_purge a) 1 = true /\ N.testbit (a_inuse a) 1 = false /\
+  calls (fst (fst (arena_try_purge default_cfg wit_oracle wit1_os a 1000150 false))) = [(KMadvise, 2 ^ 40, 2 * BLOCK, MADV_DONTNEED_)].
+Proof. exact ex_arena_calls_hyps. Qed.
 
 (* run iteration over several words: freed pages at slices 20 and 69 (word 0 bit 20, word 1 bit 5: the later run at a LOWER
    bit position), a run across the boundary of words 1 and 2 (slices 126..129) and one that ends at the last bit of the mask *)
